@@ -37,7 +37,12 @@ def run_cases(cases, n, nshards=None):
             elif len(f) >= 6:
                 fields = dict(kv.split("=", 1) for kv in f[2].split(" ") if "=" in kv)
                 res[f[0]] = {"verdict": f[1], "fields": fields, "illegal": f[3], "mismatch": f[4], "crash": f[5]}
-        for c in sh:
+        missing = [c for c in sh if c["id"] not in res]
+        if missing and len(sh) > 1:
+            # the harness process died (abort / stack overflow): run what is left one program per process
+            for c in missing:
+                res.update(work([c]))
+        for c in missing:
             res.setdefault(c["id"], {"verdict": "crash", "fields": {}, "illegal": "-", "mismatch": "-",
                                      "crash": "harness-died rc=%s %s" % (p.returncode, p.stderr[-300:].replace("\n", " "))})
         return res
@@ -102,7 +107,7 @@ def main(ctx, args):
     quick = ctx.tier == "quick"
     n = 2000 if quick else 50000
     n_leaky = 250 if quick else 500      # programs of the known leaking classes grow without bound (and so does the judge's store): the long run is kept for the others
-    plan = [("balanced", 120), ("leaky", 60), ("mixed", 60)] if quick else [("balanced", 600), ("leaky", 300), ("mixed", 300)]
+    plan = [("balanced", 400), ("leaky", 160), ("mixed", 160)] if quick else [("balanced", 1500), ("leaky", 500), ("mixed", 500)]
     if args.replay:
         r = json.load(open(args.replay))
         cases = [{"id": "replay", "src": r["src"], "scheduler": r.get("scheduler", False), "tags": r.get("tags", []),
